@@ -46,49 +46,159 @@ def segments(body, start, cuts, region, max_paths=2000):
 
 
 class SegExprs(PathExprs):
-    """PathExprs with scalar replacement of array elements: a write `a[i] = v` whose index is a
-    constant on this path defines the element cell (a, i); later reads `a[i]` on the path see v.
-    (An array of two accumulators indexed by a function of the colour is two accumulators on each
-    colour trace.)  A write with a non-constant index makes every element of `a` unknown."""
+    """PathExprs with scalar replacement of aggregates and tracking of `&mut` pointers along one path:
+      * a write `a[i] = v` whose index is a constant on this path, or `s.f = v`, defines the sub-place
+        cell (a, i) / (s, 'f'); later reads on the path see v.  (An array of two accumulators indexed by
+        a function of the colour, or a struct of two totals, is two accumulators on each colour trace.)
+        A write with a non-constant index makes every element of `a` unknown;
+      * `&mut x` / `&mut x.f` evaluates to ('ptr', x, path); copies, reborrows and tuple components carry
+        it along, so `*p = v` / `(*p).f = v` / reads through p are resolved to the cell p points to on
+        this path (a `match color` that picks which total to update, an inlined `add_assign(&mut self)`).
+        A write through anything that is not such a pointer, or a pointer handed to a call other than
+        an iterator's next(), sets `wild`: the path's effect is then not known."""
 
     def __init__(self, body):
         super().__init__(body)
-        self.elems = {}        # (local, k) -> value
+        self.elems = {}        # (local, key) -> value      key: int index | str field name
         self.blurred = set()   # locals written at a non-constant index
+        self.wild = []         # why the effect of the path is not fully known
+
+    # -- pointers
+    def rvalue(self, rv, loc):
+        if rv["k"] in ("ref", "rawptr") and rv.get("mut", rv["k"] == "rawptr"):
+            tgt = self.target(rv["place"], loc)
+            if tgt is not None:
+                return ("ptr", tgt[0], tgt[1])
+        return super().rvalue(rv, loc)
+
+    def target(self, p, loc):
+        """(local, keys) the place denotes on this path, following a tracked pointer; keys are field
+        names / constant indices; None if not resolvable."""
+        l, proj = p["local"], p["proj"]
+        keys = ()
+        if proj and proj[0]["k"] == "deref":
+            v = self.local(l, loc)
+            if not (isinstance(v, tuple) and v and v[0] == "ptr"):
+                return None
+            l, keys, proj = v[1], tuple(v[2]), proj[1:]
+        for el in proj:
+            if el["k"] == "field":
+                keys += (el["name"],)
+            elif el["k"] == "index":
+                idx = self.local(el["local"], loc)
+                if not (idx[0] == "const" and isinstance(idx[1], int)):
+                    return (l, keys + (None,))
+                keys += (idx[1],)
+            else:
+                return None
+        return l, keys
+
+    def read(self, l, keys, loc):
+        """value of the sub-place (l, keys) on this path"""
+        if l in self.env or not keys:
+            e = self.local(l, loc)
+            rest = keys
+        elif l in self.blurred or keys[0] is None:
+            return ("opaque", "element of _%d at / after a write at an unknown index" % l)
+        elif (l, keys[0]) in self.elems:
+            e, rest = self.elems[(l, keys[0])], keys[1:]
+        else:
+            e, rest = self.local(l, loc), keys
+        for k in rest:
+            if k is None:
+                return ("opaque", "unknown index")
+            e = ("index", e, ("const", k)) if isinstance(k, int) else self._field(e, {"name": k, "i": self._field_index(e, k)})
+        return e
+
+    def _field_index(self, e, name):
+        try:
+            return int(name)
+        except ValueError:
+            pass
+        if e[0] == "agg" and e[1] not in ("tuple", "array", "closure"):
+            try:
+                return self.facts.struct_fields(e[1]).index(name)
+            except Exception:
+                pass
+        return 10 ** 6      # not an aggregate literal: _field keeps it symbolic by name
 
     def place(self, p, loc):
         proj = p["proj"]
         l = p["local"]
-        if proj and proj[0]["k"] == "index" and l not in self.env and (l in self.blurred or any(k[0] == l for k in self.elems)):
-            idx = self.local(proj[0]["local"], loc)
-            if l in self.blurred or not (idx[0] == "const" and isinstance(idx[1], int)):
-                e = ("opaque", "element of _%d after a write at an unknown index" % l)
-            elif (l, idx[1]) in self.elems:
-                e = self.elems[(l, idx[1])]
-            else:
-                e = ("index", self.local(l, loc), idx)
-            for el in proj[1:]:
-                k = el["k"]
-                if k == "deref":
-                    from .expr import mk_deref
-                    e = mk_deref(e)
-                elif k == "field":
-                    e = self._field(e, el)
-                elif k == "index":
-                    e = ("index", e, self.local(el["local"], loc))
-                elif k == "cindex":
-                    e = ("cidx", e, el["offset"])
-                elif k == "downcast":
-                    e = ("downcast", e, el["variant"])
-            return e
+        through_ptr = bool(proj) and proj[0]["k"] == "deref" and isinstance(self.local(l, loc), tuple) and self.local(l, loc)[:1] == ("ptr",)
+        tracked = l not in self.env and (l in self.blurred or any(k[0] == l for k in self.elems))
+        if through_ptr or (tracked and proj and proj[0]["k"] in ("index", "field")):
+            # split the projection into the leading cell path and the rest
+            n = 1 if through_ptr else 0
+            while n < len(proj) and proj[n]["k"] in ("field", "index") and (n - (1 if through_ptr else 0)) < 1:
+                n += 1
+            tgt = self.target({"local": l, "proj": proj[:n]}, loc)
+            if tgt is not None:
+                e = self.read(tgt[0], tgt[1], loc)
+                for el in proj[n:]:
+                    k = el["k"]
+                    if k == "deref":
+                        from .expr import mk_deref
+                        e = mk_deref(e)
+                    elif k == "field":
+                        e = self._field(e, el)
+                    elif k == "index":
+                        e = ("index", e, self.local(el["local"], loc))
+                    elif k == "cindex":
+                        e = ("cidx", e, el["offset"])
+                    elif k == "downcast":
+                        e = ("downcast", e, el["variant"])
+                return e
         return super().place(p, loc)
+
+    def write(self, p, v, loc):
+        """effect of `p = v` for a projected place p"""
+        tgt = self.target(p, loc)
+        if tgt is None:
+            if p["proj"][0]["k"] == "deref":
+                self.wild.append("write through `%s`, which is not a tracked `&mut` to a local" % self.b.lname(p["local"]))
+            elif p["local"] in self.env:
+                self.env[p["local"]] = ("opaque", "partially assigned")
+            else:
+                self.wild.append("partial write to `%s`" % self.b.lname(p["local"]))
+            return
+        l, keys = tgt
+        if not keys:
+            self.assign_whole(l, v)
+        elif len(keys) == 1 and keys[0] is not None and l not in self.env and l not in self.blurred:
+            self.elems[(l, keys[0])] = v
+        elif len(keys) == 1 and l not in self.env:
+            self.blurred.add(l)
+        elif l in self.env:
+            self.env[l] = ("opaque", "partially assigned")
+        else:
+            self.wild.append("nested partial write to `%s`" % self.b.lname(l))
+
+    def assign_whole(self, l, v):
+        self.env[l] = v
+        for key in [key for key in self.elems if key[0] == l]:
+            del self.elems[key]
+        self.blurred.discard(l)
+
+
+def _has_ptr(e):
+    """the value *is* (or is an aggregate holding) a tracked pointer; a pointer that only occurs inside
+    the argument of an already evaluated call (`next(&mut it)` in an item expression) is not passed on"""
+    while e[0] in ("ref", "deref"):
+        e = e[1]
+    if e[0] == "ptr":
+        return True
+    if e[0] == "agg":
+        return any(_has_ptr(x) for x in e[3])
+    return False
 
 
 def eval_segment(body, blocks, end=None):
     """Symbolic effect of one segment.  Returns (env, conds):
     env[local] = value at the end of the segment of every local assigned as a whole on it;
-    env[('elem', local, k)] = value of element k of an array local written as `local[i] = v` with i
-    constant on the path (k is None, value opaque, if some index was not constant);
+    env[('elem', local, k)] = value of sub-place k (constant index or field name) of a local written as
+    `local[i] = v` / `local.f = v` / through a tracked `&mut` (k is None, value opaque, if some index
+    was not constant); env[('wild',)] is present if some write on the path could not be attributed;
     conds = [(discr_expr, taken_values, is_otherwise, listed_values)] for every switch passed,
     including the one whose edge to `end` closes the segment."""
     px = SegExprs(body)
@@ -99,28 +209,21 @@ def eval_segment(body, blocks, end=None):
             if st["k"] != "assign":
                 continue
             p = st["place"]
+            v = px.rvalue(st["rv"], (bb, i))
             if p["proj"]:
-                l = p["local"]
-                if len(p["proj"]) == 1 and p["proj"][0]["k"] == "index" and l not in px.env:
-                    idx = px.local(p["proj"][0]["local"], (bb, i))
-                    v = px.rvalue(st["rv"], (bb, i))
-                    if idx[0] == "const" and isinstance(idx[1], int) and l not in px.blurred:
-                        px.elems[(l, idx[1])] = v
-                    else:
-                        px.blurred.add(l)
-                    continue
-                # callers that care reject other partial writes in the region up front (see indirect_writes)
-                if l in px.env and not (p["proj"][0]["k"] == "deref"):
-                    px.env[l] = ("opaque", "partially assigned")
-                continue
-            px.env[p["local"]] = px.rvalue(st["rv"], (bb, i))
-            for key in [key for key in px.elems if key[0] == p["local"]]:
-                del px.elems[key]
-            px.blurred.discard(p["local"])
+                px.write(p, v, (bb, i))
+            else:
+                px.assign_whole(p["local"], v)
         t = body.term(bb)
         loc = body.term_loc(bb)
-        if t["k"] == "call" and not t["dest"]["proj"]:
-            px.env[t["dest"]["local"]] = px.call_expr(t, None)
+        if t["k"] == "call":
+            ce = px.call_expr(t, None)
+            if any(_has_ptr(a) for a in (ce[2] if ce[0] == "call" else ())) and not (ce[1].endswith("::next")):
+                px.wild.append("a `&mut` to a local is handed to `%s`" % ce[1])
+            if not t["dest"]["proj"]:
+                px.assign_whole(t["dest"]["local"], ce)
+            else:
+                px.write(t["dest"], ce, loc)
         elif t["k"] == "switch":
             nxt = blocks[k + 1] if k + 1 < n else end
             if nxt is None:
@@ -133,6 +236,8 @@ def eval_segment(body, blocks, end=None):
         env[("elem", l, kk)] = v
     for l in px.blurred:
         env[("elem", l, None)] = ("opaque", "element written at an unknown index")
+    if px.wild:
+        env[("wild",)] = ("opaque", "; ".join(px.wild))
     return env, conds
 
 
@@ -140,7 +245,9 @@ def cell_undef(c):
     """Expression a segment reads for cell c (a local, or ('elem', local, k)) at its cut point."""
     if isinstance(c, int):
         return undef(c)
-    return ("index", undef(c[1]), ("const", c[2]))
+    if isinstance(c[2], int):
+        return ("index", undef(c[1]), ("const", c[2]))
+    return ("field", undef(c[1]), c[2])
 
 
 def undef_cells(e):
@@ -153,6 +260,9 @@ def undef_cells(e):
             return
         if x[0] == "index" and len(x) == 3 and x[1][0] == "opaque" and str(x[1][1]).startswith("undef _") and x[2][0] == "const" and isinstance(x[2][1], int):
             out.add(("elem", int(x[1][1][len("undef _"):]), x[2][1]))
+            return
+        if x[0] == "field" and len(x) == 3 and x[1][0] == "opaque" and str(x[1][1]).startswith("undef _") and isinstance(x[2], str):
+            out.add(("elem", int(x[1][1][len("undef _"):]), x[2]))
             return
         if x[0] == "opaque" and isinstance(x[1], str) and x[1].startswith("undef _"):
             out.add(int(x[1][len("undef _"):]))
@@ -292,15 +402,19 @@ def strip_call_locs(e):
 
 def segment_asserts(body, blocks):
     """[(bb, assert kind, operand expressions at that point)] for the asserts on a segment."""
-    px = PathExprs(body)
+    px = SegExprs(body)
     out = []
     for bb in blocks:
         for i, st in enumerate(body.stmts(bb)):
-            if st["k"] == "assign" and not st["place"]["proj"]:
-                px.env[st["place"]["local"]] = px.rvalue(st["rv"], (bb, i))
+            if st["k"] == "assign":
+                v = px.rvalue(st["rv"], (bb, i))
+                if st["place"]["proj"]:
+                    px.write(st["place"], v, (bb, i))
+                else:
+                    px.assign_whole(st["place"]["local"], v)
         t = body.term(bb)
         if t["k"] == "call" and not t["dest"]["proj"]:
-            px.env[t["dest"]["local"]] = px.call_expr(t, None)
+            px.assign_whole(t["dest"]["local"], px.call_expr(t, None))
         elif t["k"] == "assert":
             out.append((bb, t["assert_kind"], [px.operand(o, body.term_loc(bb)) for o in t.get("ops", [])]))
     return out
